@@ -568,7 +568,7 @@ Qed.
 (* after the context specific part of an iteration that went on to `bottom` *)
 Lemma bottom_couple w st st2 c r rs' rf' acc :
   rest st = c :: r -> m_p st < len (m_l st) -> is_bytes (l_src (m_l st)) = true ->
-  same_lex (m_l st) (m_l st2) -> m_p st2 = m_p st ->
+  (l_src (m_l st2) = l_src (m_l st) /\ l_base (m_l st2) = l_base (m_l st) /\ l_out (m_l st2) = l_out (m_l st)) -> m_p st2 = m_p st ->
   l_ctx (m_l st2) = HTML \/ l_ctx (m_l st2) = gen_ContextTag \/ l_ctx (m_l st2) = gen_ContextQuotedAttr ->
   shows (m_l st) = rev acc -> Rel st2 rs' ->
   ref_run2 o rf' rs' (absoff st + 1) r acc = Some w ->
@@ -578,7 +578,9 @@ Proof.
   destruct (ctx_not_md _ Hctx) as (N1 & N2 & N3).
   eapply psafe_mono; [apply (bottom_sim st2 c N1 N2 N3)|].
   intros [s'|s']; [|intros []]. intros (Hl' & Hq' & Hp').
-  pose proof (same_lex_trans _ _ _ Hl2 Hl') as Hl. destruct Hl as (Es & Eb & Eo & Ef).
+  assert (Es : l_src (m_l s') = l_src (m_l st)) by (destruct Hl2 as (A & _), Hl' as (B & _); congruence).
+  assert (Eb : l_base (m_l s') = l_base (m_l st)) by (destruct Hl2 as (_ & A & _), Hl' as (_ & B & _); congruence).
+  assert (Eo : l_out (m_l s') = l_out (m_l st)) by (destruct Hl2 as (_ & _ & A), Hl' as (_ & _ & B & _); congruence).
   assert (HR' : Rel s' rs') by (eapply Rel_lex; eassumption).
   assert (Hr : r = drop (m_p st + 1) (l_src (m_l st))).
   { unfold rest in Hrest. rewrite <- drop_drop, Hrest. reflexivity. }
@@ -701,7 +703,7 @@ Proof.
   2:{ (* not a tag *)
       rewrite bind_ok. cbv iota beta. apply N.eqb_neq in N60. cbn [rstep2 rstep] in Hno, Hcont. rewrite N60 in Hno, Hcont.
       cbn [fst snd] in Hcont. rewrite N.add_0_r in Hcont.
-      eapply (bottom_couple w st st c r RData rf' acc); auto; try apply same_lex_refl; split; assumption. }
+      eapply (bottom_couple w st st c r RData rf' acc); auto; try (split; [reflexivity|split; reflexivity]); split; assumption. }
   cbv zeta. rewrite !bind_assoc.
   (* CDATA sections are outside the fragment *)
   eapply psafe_bind with (Q' := fun iscd : bool => iscd = true -> get (l_src (m_l st)) (m_p st + 1) = Some 33).
@@ -799,7 +801,7 @@ Proof.
   cbn [andb orb]. rewrite orb_false_r.
   destruct (N.eqb_spec c q) as [->|Ncq]; cbn [negb].
   2:{ rewrite bind_ok. cbv iota beta. cbn [fst snd] in Hcont. rewrite N.add_0_r in Hcont.
-      eapply (bottom_couple w st st c r (RValue tag attr q) rf' acc); auto; try apply same_lex_refl; try (right; right; exact Hctx). }
+      eapply (bottom_couple w st st c r (RValue tag attr q) rf' acc); auto; try (split; [reflexivity|split; reflexivity]); try (right; right; exact Hctx). }
   cbn [fst snd] in Hcont. rewrite N.add_0_r in Hcont.
   assert (Hc62 : (q =? 62) = false) by (destruct Hq2 as [-> | ->]; reflexivity).
   (* the state after the value: the text is flushed when the attribute holds a URL *)
@@ -824,7 +826,7 @@ Proof.
   intros st1 (Hr1 & Ho1 & Hp1 & Hby1 & Hsh1 & Hf1 & Hq1). cbv beta iota. rewrite Hc62.
   set (st2 := mset_lp (set_tidx 0 (set_att [] (set_ctx gen_ContextTag (m_l st1)))) (m_p st1) st1).
   destruct Hf1 as (F1 & F2 & F3 & F4 & F5).
-  apply (bottom_couple w st2 st2 q r (RInTag tag) rf' acc); try apply same_lex_refl; try reflexivity; auto.
+  apply (bottom_couple w st2 st2 q r (RInTag tag) rf' acc); try (split; [reflexivity|split; reflexivity]); try reflexivity; auto.
   - cbn. split; [reflexivity|]. split; [rewrite F3; exact Htag|]. rewrite F2. exact Htctx.
   - unfold st2, absoff in *. cbn [m_l m_p mset_lp l_base set_tidx set_att set_ctx]. rewrite Ho1.
     exact Hcont.
@@ -1079,4 +1081,99 @@ Proof.
       split; [exact Hl3|]. split; [lia|]. split; [lia|]. right.
       split; [unfold nm, attr_name; replace (p1 - p) with (1 + (p1 - p - 1)) by lia; rewrite take_add, (take_1 _ c) by (rewrite get_drop0; exact Hc); reflexivity|].
       split; [exact Hnt|]. exists rf3, c3. auto.
+Qed.
+
+Lemma orb_eqb2' a x y : (a =? x) || (a =? y) = true -> a = x \/ a = y.
+Proof. intros H. apply orb_prop in H. destruct H as [H|H]; apply N.eqb_eq in H; auto. Qed.
+
+(* inside a tag *)
+Lemma tag_step w st c r rf acc tag :
+  Rel st (RInTag tag) -> rest st = c :: r -> m_p st < len (m_l st) -> is_bytes (l_src (m_l st)) = true -> shows (m_l st) = rev acc ->
+  ref_run2 o rf (RInTag tag) (absoff st) (c :: r) acc = Some w ->
+  psafeT (let* (st1, cont) := tag_ctx U HTML st c in if cont then Ok (Again st1) else bottom st1 c)
+    (fun x => match x with Again s' => Coupled w s' | Stop _ => False end).
+Proof.
+  intros HR Hrest Hp Hby Hsh Href. pose proof HR as (Hctx & Htag & Htctx).
+  destruct (rest_cons st Hp) as (c' & r' & Hrest' & Hgc & Hr). rewrite Hrest in Hrest'. injection Hrest' as <- <-.
+  pose proof (is_bytes_get _ _ _ Hby Hgc) as Hc256.
+  pose proof (ref_no_show rf (RInTag tag) _ _ _ _ _ I eq_refl Href) as Hns.
+  destruct (ref_byte rf (RInTag tag) _ _ _ _ _ I Href Hns) as (rf' & Erf & _ & Hno & Hcont).
+  cbn [rstep2] in Hno, Hcont.
+  unfold tag_ctx. cbv zeta. rewrite !bind_assoc.
+  eapply psafe_bind with (Q' := fun e : bool => e = (c =? 62)).
+  { unfold orm, andm. destruct (N.eqb_spec c 62); [cbn; reflexivity|].
+    destruct (N.eqb_spec c 47) as [->|N47]; [|cbn; reflexivity]. destruct (m_p st <? len (m_l st)); [|cbn; reflexivity].
+    unfold idx_is, idx. rewrite Hgc. cbn. reflexivity. }
+  intros endtag ->.
+  destruct (N.eqb_spec c 62) as [->|N62].
+  { (* the end of the tag *)
+    change (62 =? 47) with false. cbv iota. rewrite bind_ok. cbv iota beta.
+    change (is_ws 62) with false in Hno, Hcont. cbv iota in Hno, Hcont. change (62 =? 62) with true in Hno, Hcont. cbv iota in Hno, Hcont.
+    unfold after_tag in Hno, Hcont. cbn [o_raw opt_html] in Hno, Hcont.
+    destruct (raw_elem tag) eqn:Eraw; [cbn in Hno; contradiction|]. cbn [fst snd] in Hcont. rewrite N.add_0_r in Hcont.
+    set (st2 := mset_lp (set_tctx HTML (set_tag [] (set_ctx (l_tctx (m_l st)) (m_l st)))) (m_p st) st).
+    apply (bottom_couple w st st2 62 r RData rf' acc);
+      [exact Hrest|exact Hp|exact Hby|repeat split|reflexivity|left; cbn; apply Htctx; reflexivity|exact Hsh
+      |cbn; split; [apply Htctx; reflexivity|reflexivity]|exact Hcont]. }
+  rewrite <- (isASCIISpace_is_ws c Hc256) in Hno, Hcont.
+  destruct (isASCIISpace c) eqn:Esp; cbn [negb].
+  { rewrite bind_ok. cbv iota beta. cbn [fst snd] in Hcont. rewrite N.add_0_r in Hcont.
+    apply (bottom_couple w st st c r (RInTag tag) rf' acc); auto; try (split; [reflexivity|split; reflexivity]); try (right; left; exact Hctx). }
+  destruct (is_letter c) eqn:El; [|cbn in Hno; contradiction].
+  (* an attribute *)
+  assert (Href0 : ref_run2 o rf (RInTag tag) (l_base (m_l st) + m_p st) (drop (m_p st) (l_src (m_l st))) acc = Some w).
+  { unfold rest in Hrest. rewrite Hrest. exact Href. }
+  rewrite !bind_assoc. eapply psafe_bind; [apply (attr_sim (m_l st) tag (m_p st) c acc w rf Hby Hgc El Href0)|].
+  intros [[l1 attr] next] (Hl1 & Hn0 & Hn1 & Hout). cbn [fst snd] in *.
+  destruct Hl1 as (Es1 & Eb1 & Eo1 & (F1 & F2 & F3 & F4 & F5)).
+  apply N.ltb_lt in Hn0. rewrite Hn0. apply N.ltb_lt in Hn0.
+  change (len (set_att attr l1)) with (len l1). assert (Hlen1 : len l1 = len (m_l st)) by (unfold len; rewrite Es1; reflexivity). rewrite Hlen1.
+  destruct Hout as [(-> & rf1 & rs1 & Href1 & Hrs1)|(Hne & Hnt & rf1 & c1 & Href1 & Hg1 & Hws1 & N621)].
+  - (* no value *)
+    cbn [nonempty andb]. rewrite bind_ok. cbv iota beta. cbn [psafeE].
+    apply (couple_again w st (set_att [] l1) next rs1 rf1 acc Hby); [split; assumption|exact Hn1|unfold shows; cbn; rewrite Eo1; exact Hsh| |exact Href1].
+    destruct Hrs1 as [Hnil| ->]; [left; exact Hnil|right]. cbn. rewrite F1, F2, F3. auto.
+  - (* a value: it must be quoted *)
+    assert (Hlt1 : next < len (m_l st)) by (apply get_some in Hg1; exact Hg1).
+    rewrite Hne. apply N.ltb_lt in Hlt1. rewrite Hlt1. apply N.ltb_lt in Hlt1. cbn [andb].
+    unfold idx. change (l_src (set_att attr l1)) with (l_src l1). rewrite Es1, Hg1. cbn [bind].
+    destruct (drop_cons_get _ _ Hlt1) as (b & t & Hd1 & Hgb). rewrite Hg1 in Hgb. injection Hgb as <-. rewrite Hd1 in Href1.
+    pose proof (ref_no_show rf1 (RBeforeValue tag attr) _ _ _ _ _ I eq_refl Href1) as Hns1.
+    destruct (ref_byte rf1 (RBeforeValue tag attr) _ _ _ _ _ I Href1 Hns1) as (rf2 & Erf2 & _ & Hno2 & Hcont2).
+    cbn [rstep2 rstep] in Hno2, Hcont2. rewrite Hws1 in Hno2, Hcont2.
+    destruct ((c1 =? 34) || (c1 =? 39)) eqn:Eq; [|cbn in Hno2; contradiction].
+    cbn [fst snd] in Hcont2. rewrite N.add_0_r in Hcont2.
+    assert (Hq : c1 = 34 \/ c1 = 39) by (apply orb_eqb2'; exact Eq).
+    assert (Hq0 : (c1 =? 0) = false) by (destruct Hq as [-> | ->]; reflexivity).
+    assert (Hactx : attr_ctx_of c1 = gen_ContextQuotedAttr) by (unfold attr_ctx_of; rewrite Hq0; reflexivity).
+    rewrite Hactx.
+    assert (Hdt : drop (next + 1) (l_src (m_l st)) = t) by (rewrite <- drop_drop, Hd1; reflexivity).
+    assert (HRv : forall s', l_ctx (m_l s') = gen_ContextQuotedAttr -> m_quote s' = c1 -> l_tag (m_l s') = l_tag (m_l st) -> l_att (m_l s') = attr ->
+                   l_tctx (m_l s') = l_tctx (m_l st) -> Rel s' (RValue tag attr c1)).
+    { intros s' A1 A2 A3 A4 A5. cbn. rewrite A3, A5. auto 10. }
+    destruct (containsURL (l_tag (addcol 1 (set_att attr l1))) attr).
+    + (* a URL: the text is flushed *)
+      unfold emit_text. cbn [m_lin m_col m_lcd m_lld m_p mset_lp].
+      destruct (emit_at (m_lin st) (m_col st) (m_lcd st) (m_lld st) gen_tokenText (next + 1) (addcol 1 (set_att attr l1))) as [l3| | |] eqn:E3; cbn [bind]; try exact I.
+      destruct (emit_at_sim _ _ _ _ _ _ _ _ E3) as (_ & Hs3 & Hb3 & Hf3 & Hsh3).
+      change (gen_tokenText =? gen_tokenLeftBraces) with false in Hsh3. rewrite app_nil_r in Hsh3.
+      rewrite ?bind_assoc. eapply psafe_bind; [apply (emit0_sim gen_tokenStartURL (set_ctx gen_ContextQuotedAttr l3)); discriminate|].
+      intros l5 (Hs5 & Hb5 & Hf5 & Hsh5). rewrite ?bind_ok. cbv iota beta. cbn [psafeE].
+      unfold Coupled. cbn [m_l m_p mset_url mset_quote resync]. split; [lia|].
+      lcbn_in Hs3. lcbn_in Hb3. lcbn_in Hs5. lcbn_in Hb5.
+      split; [rewrite Hs5, Hs3, Es1; apply is_bytes_drop; exact Hby|].
+      exists (RValue tag attr c1), rf2, acc.
+      split; [rewrite Hsh5; change (shows (set_ctx gen_ContextQuotedAttr l3)) with (shows l3); rewrite Hsh3;
+              change (shows (addcol 1 (set_att attr l1))) with (shows l1); unfold shows; rewrite Eo1; exact Hsh|].
+      unfold absoff, rest. cbn [m_l m_p mset_url mset_quote resync]. change (drop 0 (l_src l5)) with (l_src l5).
+      rewrite N.add_0_r, Hs5, Hb5, Hs3, Hb3, Es1, Eb1, Hdt.
+      split; [|rewrite N.add_assoc; exact Hcont2].
+      right. destruct Hf5 as (G1 & G2 & G3 & G4 & _), Hf3 as (K1 & K2 & K3 & K4 & _). lcbn_in G1. lcbn_in G2. lcbn_in G3. lcbn_in G4. lcbn_in K2. lcbn_in K3. lcbn_in K4.
+      apply HRv; cbn [m_l m_quote mset_url mset_quote resync]; try congruence.
+    + rewrite ?bind_ok. cbv iota beta. cbn [psafeE].
+      unfold Coupled, len. cbn [m_l m_p mset_quote mset_lp]. lcbn. rewrite Es1. unfold len in Hlt1. split; [lia|]. split; [exact Hby|].
+      exists (RValue tag attr c1), rf2, acc. unfold shows. lcbn. rewrite Eo1. fold (shows (m_l st)). split; [exact Hsh|].
+      unfold absoff, rest. cbn [m_l m_p mset_quote mset_lp]. lcbn. rewrite Es1, Eb1, Hdt.
+      split; [|rewrite N.add_assoc; exact Hcont2].
+      right. apply HRv; cbn [m_l m_quote mset_quote mset_lp]; lcbn; auto.
 Qed.
